@@ -130,6 +130,8 @@ pub struct Chain {
     /// blocks whose epoch is not AFTER `mmr_activated_epoch (0/1)` carry no extension (no chain root commitment): the chain
     /// before the activation of the MMR and the first block of the activation epoch (its parent is not covered yet)
     pub mmr_activated_epoch: u64,
+    /// (number, index, length) claimed by the NEXT block instead of its real epoch (a hostile chain tip, C10); consumed once
+    pub epoch_override: Option<(u64, u64, u64)>,
 }
 
 struct Provider<'a>(&'a HashMap<OutPoint, CellInfo>);
@@ -221,6 +223,7 @@ impl Chain {
             mempool: vec![],
             skip_pow: false,
             mmr_activated_epoch: 0,
+            epoch_override: None,
         };
         chain.append(genesis);
         chain
@@ -261,8 +264,11 @@ impl Chain {
         {
             let size = if n == 0 { 0 } else { leaf_index_to_mmr_size(n - 1) };
             let mut mmr = ChainRootMMR::new(size, &self.store);
-            mmr.push(block.digest()).unwrap();
-            mmr.commit().unwrap();
+            // A hostile tip with a malformed epoch (C10) cannot be merged with its neighbours; as a tip it is never a leaf
+            // under a chain root, so it is simply left out (nothing is mined on top of it).
+            if mmr.push(block.digest()).is_ok() {
+                mmr.commit().unwrap();
+            }
         }
         self.blocks.push(block);
     }
@@ -400,7 +406,10 @@ impl Chain {
     pub fn build_next(&mut self, txs: Option<Vec<TransactionView>>) -> BlockView {
         let n = self.blocks.len() as u64;
         let parent = self.blocks.last().unwrap().clone();
-        let (epoch, ct) = self.epoch_of(n);
+        let (mut epoch, ct) = self.epoch_of(n);
+        if let Some((number, index, length)) = self.epoch_override.take() {
+            epoch = EpochNumberWithFraction::new_unchecked(number, index, length);
+        }
         let root = self.chain_root(n - 1);
         let ext: Vec<u8> = root.calc_mmr_hash().as_slice().to_vec();
         let commits_chain_root = epoch > EpochNumberWithFraction::new(self.mmr_activated_epoch, 0, 1);
@@ -463,6 +472,7 @@ impl Chain {
             mempool: vec![],
             skip_pow: false,
             mmr_activated_epoch: self.mmr_activated_epoch,
+            epoch_override: None,
         };
         for b in &self.blocks[..=f as usize] {
             c.append(b.clone());
